@@ -81,6 +81,8 @@ class Sub(object):
         s.samples = stats.samples[:4]
         s.traces_validated = stats.executions
         s.wall = wall
+        if stats.units:
+            s.extra["cases_checked"] = stats.units
         missing = [f for f in required_flags if f not in stats.flags]
         if missing:
             s.vacuous = "oracle branch never taken: %s" % ",".join(missing)
